@@ -105,6 +105,19 @@ Proof. exact oracle_tx_ignored_message_leaves_trace. Qed.
 Theorem C09_oracle_tx_first_message_atomic : forall s, fget "fail.idx" s <= 0 -> fget "fail.ignored" s = 0 ->
   failed (res_of (exec MTxMem oracle_tx s)) = true -> tr_of (exec MTxMem oracle_tx s) = [].
 Proof. exact oracle_tx_first_message. Qed.
+(* oracle MsgUpdateParams: the known variant (params pushed into the in-memory cache by an accepted message of a tx that
+   fails later) is refuted; failing at the first message leaves no trace; and this entry point never writes the
+   aggregator context's own params *)
+Theorem C09_oracle_params_cache_refuted :
+  failed (res_of (exec MTxMem oracle_params_tx oracle_params_bad_state)) = true /\
+  tr_of (exec MTxMem oracle_params_tx oracle_params_bad_state) = ["oracle-mem/cache"%string].
+Proof. exact oracle_params_cache_not_rolled_back. Qed.
+Theorem C09_oracle_params_first_message_atomic : forall s, fget "fail.idx" s <= 0 ->
+  failed (res_of (exec MTxMem oracle_params_tx s)) = true -> tr_of (exec MTxMem oracle_params_tx s) = [].
+Proof. exact oracle_params_first_message. Qed.
+Theorem C09_oracle_params_never_touches_agc_params : forall s,
+  ~ In "oracle-mem/agc-params"%string (tr_of (run oracle_params_tx s)).
+Proof. exact oracle_params_never_touches_agc_params. Qed.
 Print Assumptions C09_withdraw_nst_nocache_refuted.
 
 (* non-vacuity: states that satisfy the invariants and in which the calls fail / succeed *)
